@@ -83,6 +83,10 @@ def make_loop(rng, G, var, tags):
                 tags.add("debatable-value")
         else:
             vals = [G.string() for _ in range(n)]
+        if vt == "int" and rng.random() < 0.06:
+            # integers at and beyond the ends of the 64-bit range (delivered as they are written)
+            vals.insert(rng.randrange(len(vals) + 1), rng.choice(["9223372036854775808", "-9223372036854775808", "18446744073709551615", "-9223372036854775809", "9223372036854775807", "100000000000000000000"]))
+            tags.add("loop-value-beyond-int64")
         if vt in ("int", "float") and rng.random() < 0.1:
             # a bool among numbers: either refused or bound converted to the loop type
             vals.insert(rng.randrange(len(vals) + 1), rng.choice(["True", "False"]))
